@@ -11,10 +11,25 @@ CHECKS = {
         "note": "StubDatabase/DetLoop; <=3 tokens per port, <=3 ports, symbolic last tag component from 0..2/0..3 and 8..11 (tags are dict keys in the combinators, so symbolic tags are realised value by value), concrete parent prefixes incl. '0.1' vs '0.10'; duplicate tags on one port and cartesian combinators with inner combinators (latent AttributeError, never built by the translator) are outside.",
         "technique": "symbolic execution of the real combinator step (CrossHair + z3) on a deterministic loop with solver-chosen arrival merges and tags; exact reference + order-invariance oracle; native replay",
     },
+    "C04": {
+        "text": "Bounded interleaving exploration through the solver at executor level: six small workflow graphs assembled from the real step classes (transformer chain, scatter/gather, dot-product join of two scattered inputs, conditional with skip port, two independent branches with two outputs, scatter->ScheduleStep->ExecuteStep->gather on the real DefaultScheduler with a slot-limited stub connector) are run by the real StreamFlowExecutor on a deterministic loop; the first K scheduling choices (K=2-3 quick, 3-5 thorough), input values, which unit fails and the job completion order are solver variables. run() must finish (deadlock = violation), return the expected outputs when no fault fired and raise otherwise; afterwards every step is terminated with a terminal status, every output port ends with a TerminationToken and no task is pending; after a job failure the other (long-running) jobs must be cancelled by the engine.",
+        "note": "Each explored path is one schedule; schedules differing only after the K-th choice point are not distinguished; <=1 fault; loops are covered at step level (C06); stub database/connector/failure manager (recover re-raises); no file system.",
+        "technique": "symbolic execution of the real executor and steps (CrossHair + z3) on a deterministic loop with solver-chosen interleavings, faults and job completion orders; native replay",
+    },
+    "C05": {
+        "text": "Same graphs and solver-chosen schedules/job-completion orders as C04 without faults: for every explored interleaving the executor returns exactly the value the harness computes from the symbolic inputs and every workflow output port carries each tag exactly once, so the result cannot depend on the interleaving within the bound.",
+        "note": "As C04 (bounded interleavings, <=3 list elements).",
+        "technique": "symbolic execution of the real executor and steps (CrossHair + z3) with solver-chosen interleavings; reference result computed from the symbolic inputs; native replay",
+    },
     "C06": {
         "text": "Bounded symbolic check of the real loop steps: CWLLoopOutputLast/AllStep fed with the causal merge of iteration values and iteration-termination markers (iteration count 0..3 with a fully symbolic arrival permutation, 10-15 iterations with a symbolic transposition, symbolic marker position, two interleaved instances '0.1'/'0.10' with solver-chosen merge) emit exactly one output per instance with tag = prefix and the last value / all values in numeric iteration order, None for zero iterations, and do not terminate before the producers do; the real LoopCombinatorStep retags the k-th product of an instance <prefix>.k and does not terminate while an instance is still iterating; LoopTerminationCombinator emits one IterationTerminationToken per completed instance.",
         "note": "Step-level lemmas; histories restricted to causal ones w.r.t. the translator's wiring (every TerminationToken after all values and markers). The assembled loop sub-graph under an executor is not part of this check (see C04 family). Instance prefixes concrete.",
         "technique": "symbolic execution of the real loop steps (CrossHair + z3) on a deterministic loop with solver-chosen arrival permutations/merges; native replay",
+    },
+    "C07": {
+        "text": "Same graphs and solver-chosen schedules as C04 without faults with a recording database stub: every non-termination token on any step output port is persisted; its recorded dependees are exactly the persisted tokens the emitting step consumed for it (transformer/conditional/combinator/schedule/execute: inputs of that tag incl. the job token; scatter: the list token; gather: size token + elements); provenance is recorded once per token; every dependee id is smaller than its depender id (acyclic, dependee-first). C01/C02/C06 assert the same rule at step level under symbolic arrival orders for gather, combinator and loop-output tokens.",
+        "note": "Engine level only: the SQL layer (INSERT OR IGNORE, get_dependees) is behind sqlite3 and outside; recovery runs outside; bounded interleavings as C04.",
+        "technique": "symbolic execution of the real executor and steps (CrossHair + z3) against a recording database stub; native replay",
     },
     "C10": {
         "text": "Bounded symbolic check of the real DefaultScheduler on stub connectors: from every pair (and selected triples) of designated job statuses reached through canonical prefixes, every sequence of 1-2 (thorough: up to 3) further operations chosen by the solver among schedule/RUNNING/COMPLETED/FAILED/CANCELLED/RECOVERY/ROLLBACK on any job, with all capacities, requirements and measured storage usages symbolic exact integers, keeps the summed requirement of FIREABLE/RUNNING jobs within the capacity of every location at every stacked level (or the job count within the slots), on 7 topologies (one location, two locations with 1- or 2-location targets, slot-only, stacked wrapper with bind mount and jobs on either level, two deployments as ordered targets).",
